@@ -177,6 +177,9 @@ impl Check for C02 {
         }
         for f in &rep.residue {
             st.count(&format!("bcv:{}", f.class));
+            if text.len() < 400 {
+                st.set_insert("residue-samples", &format!("{} :: {} :: {}", f.class, f.detail, text));
+            }
         }
         for s in &rep.inconclusive {
             st.inconclusive(format!("bytecode checker: {}", s));
